@@ -1,10 +1,12 @@
 #!/bin/sh
-# tools/seedmatrix.sh -- run every seeded change through its property's quick check (scratch evidence) and write
-# seeded/results.json: outcome VIOLATION / UNDECIDED / missed per seed.  /repo is restored after each.
+# tools/seedmatrix.sh [seed ...] -- run seeded changes (all, or the ones named) through their property's quick check (scratch
+# evidence) and merge the outcome VIOLATION / UNDECIDED / missed per seed into seeded/results.json.  /repo is restored after each.
+# VERIF_NO_REPLAY=1 skips the replay search (the replay crate is rebuilt against every seeded tree: minutes per seed).
 cd "$(dirname "$0")/.." || exit 2
-out=seeded/results.json; tmp=.build/seedmatrix.txt; : > $tmp
-for d in seeded/*/; do
-  sd=$(basename $d); [ -f $d/patch.diff ] || continue
+tmp=.build/seedmatrix.txt; : > $tmp
+if [ $# -gt 0 ]; then list="$*"; else list=$(ls seeded); fi
+for sd in $list; do
+  d=seeded/$sd/; [ -f $d/patch.diff ] || continue
   case $sd in C06_head_finding) continue;; esac
   prop=${sd%%_*}
   git -C /repo apply "$(pwd)/$d/patch.diff" 2>/dev/null || { echo "$sd NOAPPLY" >> $tmp; continue; }
@@ -15,11 +17,18 @@ for d in seeded/*/; do
   echo "$sd $r" >> $tmp
 done
 python3 - <<'PY'
-import json
-res={}
+import json,subprocess,os
+f='/verif/seeded/results.json'
+old=json.load(open(f)) if os.path.exists(f) else {"results":{}}
+res=dict(old.get("results",{})); asof=dict(old.get("as_of",{}))
+head=subprocess.run(["git","-C","/verif","rev-parse","--short","HEAD"],capture_output=True,text=True).stdout.strip()
+noreplay=bool(os.environ.get("VERIF_NO_REPLAY"))
 for l in open('/verif/.build/seedmatrix.txt'):
-    a,b=l.split(None,1); res[a]=b.strip()
-json.dump({"what":"outcome of ./check <property> quick with each seeded change applied to /repo (tools/seedmatrix.sh)","results":res},open('/verif/seeded/results.json','w'),indent=1)
+    a,b=l.split(None,1); b=b.strip()
+    if noreplay and b=="VIOLATION" and res.get(a,"").startswith("VIOLATION+witness"):
+        b=res[a]          # a run without the replay search does not take a recorded witness away
+    res[a]=b; asof[a]=head+(" (no replay search)" if noreplay else "")
+json.dump({"what":"outcome of ./check <property> quick with each seeded change applied to /repo (tools/seedmatrix.sh); as_of: the /verif commit each entry was last produced at","results":dict(sorted(res.items())),"as_of":dict(sorted(asof.items()))},open(f,'w'),indent=1)
 from collections import Counter
 print(Counter(v.split('+')[0] for v in res.values()))
 PY
